@@ -28,7 +28,9 @@ WhyWif(c) == IF c.wif # WifOf(HO(c), c.net, c.secret32, c.compressed) THEN "wif-
              ELSE IF ~c.back_ok THEN "wif-parse-fails"
              ELSE IF c.back_secret # c.secret32 \/ c.back_compressed # c.compressed \/ (c.back_mainnet # (c.net = "mainnet")) THEN "wif-parse-not-inverse" ELSE ""
 Why(c) == CASE c.kind = "b58" -> WhyB58(c) [] c.kind = "b58check" -> WhyB58Check(c) [] c.kind = "b58cand" -> WhyB58Cand(c)
-            [] c.kind = "segwit" -> WhySegwit(c) [] c.kind = "segwit-sub" -> WhySegwitSub(c) [] c.kind = "template" -> WhyTemplate(c) [] c.kind = "wif" -> WhyWif(c)
+            [] c.kind = "segwit" -> WhySegwit(c) [] c.kind = "segwit-sub" -> WhySegwitSub(c)
+            [] c.kind = "segwit-const" -> (IF SegwitDecode(c.text).ok THEN "spec-accepts-address-with-the-other-constant"     \* BIP350: v0 <-> Bech32, v1+ <-> Bech32m
+                                           ELSE IF c.accepted THEN "accepts-address-with-the-other-checksum-constant" ELSE "") [] c.kind = "template" -> WhyTemplate(c) [] c.kind = "wif" -> WhyWif(c)
 VARIABLES i, bad
 Init == i = 1 /\ bad = <<>>
 Next == /\ i <= NCases /\ i' = i + 1
